@@ -32,7 +32,7 @@ RULE = ('directed corpus (docstring examples, one message per rendering, D4/K12 
         '(per-rendering alphabet, length 1..40), surrounding class (rotating over 13) and mask per cell and round '
         '+ messages with 2..4 secrets + key-free messages (four alphabets that cannot spell a key, near-miss key '
         'spellings in every rendering). every message is non-trivial; distinct by (message, mask)')
-REQUIRED_CLAUSES = ['under-warnings-as-errors', 'concurrent-calls-answer-as-alone', 'first-use-under-recursion-pressure', 'documented-keyword-call', 'b-no-leak (dash-leading secret)', 'a-exact-output', 'b-no-leak', 'c-idempotent', 'd-identity-without-key']
+REQUIRED_CLAUSES = ['equal-valued-arguments-in-any-order', 'valid-calls-after-rejected-calls-answer-as-before', 'under-warnings-as-errors', 'concurrent-calls-answer-as-alone', 'first-use-under-recursion-pressure', 'documented-keyword-call', 'b-no-leak (dash-leading secret)', 'a-exact-output', 'b-no-leak', 'c-idempotent', 'd-identity-without-key']
 ASSUMPTIONS = [
     'expected output is composed from the generator components; the 35 keys are the list in the property '
     '(copied here, not imported from the code under test)',
